@@ -55,6 +55,15 @@ def cases(tier: str, seed: int) -> List[Dict[str, Any]]:
                     continue
                 out.append({"kind": kind, "fin": fi, "fout": fo, "k": None, "depth": d, "form": form,
                             "eta": eta, "opt": opt, "constraint": con, "seed": seed})
+    # the learning rate given as an int literal (eta = 1) or as a 0-dim tensor
+    for kind in ("Linear", "LinearReadout"):
+        for fi, fo in itertools.product([1, 2, 3, 5, 16, 31], [1, 3, 8]):
+            for (d, form) in conts:
+                for opt in ("Adam", "AdamW"):
+                    out.append({"kind": kind, "fin": fi, "fout": fo, "k": None, "depth": d, "form": form, "eta": 1, "lr_kind": "int",
+                                "opt": opt, "constraint": "default", "seed": seed})
+                    out.append({"kind": kind, "fin": fi, "fout": fo, "k": None, "depth": d, "form": form, "eta": 0.3, "lr_kind": "tensor",
+                                "opt": opt, "constraint": "default", "seed": seed, "two_layers": True})
     for cin, k, co in itertools.product([1, 2, 3, 8], range(1, 10), [1, 3, 64]):
         for (d, form), eta, opt, con in itertools.product(conts, ETAS, ["Adam", "AdamW"], ["default", None]):
             ndev = (eta != ETAS[0]) + (opt != "Adam") + (con != "default")
@@ -75,6 +84,8 @@ def run_case(case: Dict[str, Any]) -> Dict[str, Any]:
     kind, fi, fo, k = case["kind"], case["fin"], case["fout"], case["k"]
     d, form, eta = case["depth"], case["form"], case["eta"]
     ident = f"{kind}|{form}|{case['opt']}|constraint={case['constraint']}"
+    if case.get("lr_kind"):
+        ident += f"|lr={case['lr_kind']}"
     viol: List[Dict[str, str]] = []
     nin = fi * (k or 1)
     if nin <= 3 and fo <= 3:
@@ -109,7 +120,14 @@ def run_case(case: Dict[str, Any]) -> Dict[str, Any]:
                 else:
                     holder = uu.DepthModuleList([layer] + fillers)
             Opt = uu.optim.Adam if case["opt"] == "Adam" else uu.optim.AdamW
-            opt = Opt(holder.parameters(), lr=eta, eps=0.0, weight_decay=0.0)
+            lr_arg: Any = eta
+            if case.get("lr_kind") == "tensor":
+                lr_arg = torch.tensor(eta, dtype=torch.float64)
+            plist = list(holder.parameters())
+            if case.get("two_layers"):
+                # a second, unrelated tagged parameter in the same optimizer (shared lr tensor)
+                plist = plist + [uu.Parameter(torch.randn(7, 3, dtype=torch.float64), "weight")]
+            opt = Opt(plist, lr=lr_arg, eps=0.0, weight_decay=0.0)
             if kind == "Conv1d":
                 x = torch.tensor(xp, dtype=torch.float64).reshape(1, fi, k)
             else:
